@@ -98,6 +98,13 @@ def pruneOutputs (vin : List TxIn) (vout : List TxOut) (inIdx : Nat) (hashtype :
     | some tmp => some (zeroOtherSeq vin inIdx, List.replicate inIdx blankTxOut ++ [tmp])
   else some (vin, vout)
 
+/-- `if hashtype & SIGHASH_ANYONECANPAY: tmp = txtmp.vin[inIdx]; txtmp.vin = []; txtmp.vin.append(tmp)` -/
+def pruneInputs (vin : List TxIn) (inIdx : Nat) (hashtype : Int) : Res (List TxIn) :=
+  if (hashtype / 128) % 2 ≠ 0 then do
+    let tmp ← pyGetNat vin inIdx
+    pure [tmp]
+  else pure vin
+
 /-- script.py `RawSignatureHash(script, txTo, inIdx, hashtype)` → `(hash, err is not None)` -/
 def rawSignatureHash (script : Bytes) (txTo : Tx) (inIdx : Nat) (hashtype : Int) : Res (Bytes × Bool) :=
   if inIdx ≥ txTo.vin.length then .ok (HASH_ONE, true)
@@ -112,8 +119,7 @@ def rawSignatureHash (script : Bytes) (txTo : Tx) (inIdx : Nat) (hashtype : Int)
     match pruneOutputs vin1 txtmp.vout inIdx hashtype with
     | none => pure (HASH_ONE, true)
     | some (vin2, vout2) => do
-      -- if hashtype & SIGHASH_ANYONECANPAY: tmp = txtmp.vin[inIdx]; txtmp.vin = [tmp]
-      let vin3 ← if (hashtype / 128) % 2 ≠ 0 then (do let tmp ← pyGetNat vin2 inIdx; pure [tmp]) else pure vin2
+      let vin3 ← pruneInputs vin2 inIdx hashtype
       -- txtmp.wit = CTxWitness(); s = txtmp.serialize()
       let s ← serTx { txtmp with vin := vin3, vout := vout2, wit := [] }
       -- s += struct.pack(b"<i", hashtype)
@@ -162,31 +168,43 @@ def signatureHashBase (script : Bytes) (txTo : Tx) (inIdx : Nat) (hashtype : Int
 
 def zero32 : Bytes := List.replicate 32 0
 
+/-- `hashtype & SIGHASH_ANYONECANPAY` is non-zero -/
+def htAnyoneCanPay (hashtype : Int) : Bool := (hashtype / 128) % 2 ≠ 0
+
+/-- first `if` block of the witness-v0 branch: `hashPrevouts` -/
+def v0HashPrevouts (txTo : Tx) (hashtype : Int) : Res Bytes :=
+  if !htAnyoneCanPay hashtype then do
+    -- for i in txTo.vin: serialize_prevouts += i.prevout.serialize()
+    let parts ← txTo.vin.mapM (fun i => serOutPoint i.prevout)
+    pure (Crypto.hash256 parts.flatten)
+  else pure zero32
+
+/-- second `if` block: `hashSequence` -/
+def v0HashSequence (txTo : Tx) (hashtype : Int) : Res Bytes :=
+  if !htAnyoneCanPay hashtype && hashtype % 32 ≠ 3 && hashtype % 32 ≠ 2 then do
+    -- for i in txTo.vin: serialize_sequence += struct.pack("<I", i.nSequence)
+    let parts ← txTo.vin.mapM (fun i => packU 4 i.nSequence)
+    pure (Crypto.hash256 parts.flatten)
+  else pure zero32
+
+/-- third `if / elif` block: `hashOutputs` -/
+def v0HashOutputs (txTo : Tx) (inIdx : Nat) (hashtype : Int) : Res Bytes :=
+  if hashtype % 32 ≠ 3 ∧ hashtype % 32 ≠ 2 then do
+    let parts ← txTo.vout.mapM serTxOut
+    pure (Crypto.hash256 parts.flatten)
+  else if hashtype % 32 = 3 ∧ inIdx < txTo.vout.length then do
+    let o ← pyGetNat txTo.vout inIdx
+    let b ← serTxOut o
+    pure (Crypto.hash256 b)
+  else pure zero32
+
 /-- `SignatureHash(script, txTo, inIdx, hashtype, amount, SIGVERSION_WITNESS_V0)`;
     `amount = none` is the default `None` (struct.error "required argument is not an integer"). -/
 def signatureHashWitnessV0 (script : Bytes) (txTo : Tx) (inIdx : Nat) (hashtype : Int)
     (amount : Option Int) : Res Bytes := do
-  let acp : Bool := (hashtype / 128) % 2 ≠ 0          -- hashtype & SIGHASH_ANYONECANPAY
-  let m : Int := hashtype % 32                        -- hashtype & 0x1f
-  let hashPrevouts ←
-    if !acp then do
-      let parts ← txTo.vin.mapM (fun i => serOutPoint i.prevout)
-      pure (Crypto.hash256 parts.flatten)
-    else pure zero32
-  let hashSequence ←
-    if !acp && m ≠ 3 && m ≠ 2 then do
-      let parts ← txTo.vin.mapM (fun i => packU 4 i.nSequence)
-      pure (Crypto.hash256 parts.flatten)
-    else pure zero32
-  let hashOutputs ←
-    if m ≠ 3 ∧ m ≠ 2 then do
-      let parts ← txTo.vout.mapM serTxOut
-      pure (Crypto.hash256 parts.flatten)
-    else if m = 3 ∧ inIdx < txTo.vout.length then do
-      let o ← pyGetNat txTo.vout inIdx
-      let b ← serTxOut o
-      pure (Crypto.hash256 b)
-    else pure zero32
+  let hashPrevouts ← v0HashPrevouts txTo hashtype
+  let hashSequence ← v0HashSequence txTo hashtype
+  let hashOutputs ← v0HashOutputs txTo inIdx hashtype
   let v ← packI 4 txTo.nVersion
   let i ← pyGetNat txTo.vin inIdx
   let op ← serOutPoint i.prevout
